@@ -42,6 +42,8 @@ pub struct WorldCfg {
     pub big_bodies: bool,
     /// every server terminates TLS (fixture CA), origins are https://
     pub tls: bool,
+    /// > 0: the transport's readiness is a reservation of one of this many dial slots
+    pub slots: usize,
 }
 
 /// host names covered by the fixture certificate, by server index
@@ -61,7 +63,7 @@ impl WorldCfg {
             "engine": "traffic", "seed": self.seed,
             "servers": self.servers.iter().map(|(p, n)| format!("{p:?}/{n:?}")).collect::<Vec<_>>(),
             "pool": self.pool, "max_idle": self.max_idle, "cont": self.cont, "rounds": self.rounds, "per_round": self.per_round,
-            "cancel_pct": self.cancel_pct, "upgrade_pct": self.upgrade_pct, "multi_thread": self.multi_thread, "big_bodies": self.big_bodies, "tls": self.tls,
+            "cancel_pct": self.cancel_pct, "upgrade_pct": self.upgrade_pct, "multi_thread": self.multi_thread, "big_bodies": self.big_bodies, "tls": self.tls, "slots": self.slots,
         })
     }
     pub fn from_json(v: &Value) -> WorldCfg {
@@ -100,6 +102,7 @@ impl WorldCfg {
             multi_thread: v["multi_thread"].as_bool().unwrap_or(false),
             big_bodies: v["big_bodies"].as_bool().unwrap_or(false),
             tls: v["tls"].as_bool().unwrap_or(false),
+            slots: v["slots"].as_u64().unwrap_or(0) as usize,
         }
     }
 }
@@ -312,7 +315,7 @@ pub async fn run_world_async(cfg: WorldCfg) -> WorldResult {
     let log = Arc::new(Log::default());
     let gates = Gates::default();
     // one world in five: the transport's readiness is a reservation of one of 1-2 dial slots
-    let slots = if cfg.seed % 5 == 2 { Some(Slots::new(1 + (cfg.seed / 5 % 2) as usize)) } else { None };
+    let slots = if cfg.slots > 0 { Some(Slots::new(cfg.slots)) } else { None };
     let routes = Routes { log: log.clone(), slots, ..Default::default() };
     let mut servers = Vec::new();
     for (i, (proto, net)) in cfg.servers.iter().enumerate() {
@@ -501,7 +504,7 @@ pub fn judge(cfg: &WorldCfg, res: &WorldResult, rep: &mut Report, args: &Args) {
         let p = rep.prop("C03", RULE03);
         p.eval(if completed >= 8 { Some(hash_of(&format!("{replay}"))) } else { None });
         p.count("e2e_requests_resolved", res.outcomes.len() as u64);
-        if cfg.seed % 5 == 2 {
+        if cfg.slots > 0 {
             p.count("e2e_worlds_with_reserving_transport", 1);
         }
         if res.hang {
@@ -629,6 +632,7 @@ pub fn gen_worlds(seed: u64, n: usize, thorough: bool) -> Vec<WorldCfg> {
             multi_thread: multi,
             big_bodies: !tiny && (rng.gen_bool(0.3) || tls && rng.gen_bool(0.5)),
             tls,
+            slots: if i % 5 == 2 { 1 + (i / 5) % 2 } else { 0 },
         });
     }
     v
